@@ -720,6 +720,7 @@ package template
 //@   option allocates
 //@   option locks true
 //@   ensures executed: !isnil(old(t.escapeErr)) ==> !isnil(err) && isnil(r)
+//@   ensures setexecuted: old(t.nameSpace.escaped) ==> !isnil(err) && isnil(r)
 //@   ensures ok: isnil(err) ==> !isnil(r) && fresh(r) && !isnil(r.nameSpace) && fresh(r.nameSpace) && r.nameSpace != t.nameSpace && !r.nameSpace.escaped && isnil(r.escapeErr) && !held(r.nameSpace.mu)
 //@   ensures unlocked: !held(t.nameSpace.mu)
 //@   ensures isolated: isnil(err) ==> fresh(r.nameSpace.set) && fresh(r.nameSpace.esc.output) && fresh(r.nameSpace.esc.derived) && fresh(r.nameSpace.esc.called) && fresh(r.nameSpace.esc.actionNodeEdits) && fresh(r.nameSpace.esc.templateNodeEdits) && fresh(r.nameSpace.esc.textNodeEdits) && r.nameSpace.esc.ns == r.nameSpace
